@@ -110,8 +110,14 @@ func (w *World) Unary(ctx context.Context, in *Msg) (*Msg, error) {
 	if err != nil {
 		return nil, err
 	}
+	if out == NilReply {
+		return nil, nil // a handler may return no reply object at all with a nil error: an empty reply
+	}
 	return S(out), nil
 }
+
+// NilReply: a Unaries function returning this makes the service return (nil, nil).
+const NilReply = "\x00nil-reply"
 
 // Stream implements SvcServer.
 func (w *World) Stream(kind string, ss grpc.ServerStream) error {
@@ -452,12 +458,16 @@ func PEarlyClose(r *Rec, cs grpc.ClientStream) {
 
 // Unary issues one unary call for r.
 func (w *World) CallUnary(cc grpc.ClientConnInterface, ctx context.Context, r *Rec, data string) {
-	out := new(Msg)
+	// the reply object is not fresh (an application may reuse one): a successful call replaces what it held
+	out := &Msg{Value: []byte("stale reply of an earlier call")}
 	req := r.Tag + "|" + data
 	r.CSent = append(r.CSent, req)
 	err := cc.Invoke(ctx, MUnary, S(req), out)
 	r.CErr = err
 	r.CReply = string(out.Value)
+	if err != nil {
+		r.CReply = ""
+	}
 	r.CDone = true
 }
 
